@@ -470,6 +470,25 @@ def election_range(cx):
         ok2 = g.guarded(at, lambda lits: any(not_below(l) for l in lits))[0]
         cx.check(ok1, "range:nonempty", "validate() succeeds only if min_election_tick() < max_election_tick() (the effective bounds, through the getters)")
         cx.check(ok2, "range:not-below", "validate() succeeds only if min_election_tick() >= election_tick")
+    # the other rejections (each keeps a later division, window or lease assumption from breaking)
+    def lit_field_zero(name):
+        return lambda l: l[0] == "notin" and l[1][0] == "field" and l[1][2] == "Config." + name and 0 in l[2]
+    others = [
+        ("id != 0", lit_field_zero("id")),
+        ("heartbeat_tick != 0", lit_field_zero("heartbeat_tick")),
+        ("max_inflight_msgs != 0", lit_field_zero("max_inflight_msgs")),
+        ("election_tick > heartbeat_tick", lambda l: l[0] == "is" and l[1][0] == "bin" and l[1][1] == "Lt" and ((l[2] is True and l[1][2][0] == "field" and l[1][2][2] == "Config.heartbeat_tick" and l[1][3][0] == "field" and l[1][3][2] == "Config.election_tick") or (l[2] is False and l[1][2][0] == "field" and l[1][2][2] == "Config.election_tick" and l[1][3][0] == "field" and l[1][3][2] == "Config.heartbeat_tick"))),
+        ("max_uncommitted_size >= max_size_per_msg", lambda l: l[0] == "is" and l[2] is False and l[1][0] == "bin" and l[1][1] == "Lt" and l[1][2][0] == "field" and l[1][2][2] == "Config.max_uncommitted_size" and l[1][3][0] == "field" and l[1][3][2] == "Config.max_size_per_msg"),
+    ]
+    for at in oks:
+        for txt, pred in others:
+            okx = g.guarded(at, lambda lits, pred=pred: any(pred(l) for l in lits))[0]
+            cx.check(okx, "reject:" + txt, "validate() succeeds only if %s" % txt)
+        # LeaseBased reads need check_quorum: on the success path either the option is not LeaseBased or check_quorum is set
+        def lease_ok(l):
+            return (l[0] == "in" and l[1][0] == "field" and l[1][2] == "Config.read_only_option" and "LeaseBased" not in l[2]) or (l[0] == "is" and l[2] is True and l[1][0] == "field" and l[1][2] == "Config.check_quorum") or \
+                (l[0] == "is" and l[2] is False and l[1][0] == "bin" and l[1][1] == "Eq" and any(x[0] == "field" and x[2] == "Config.read_only_option" for x in l[1][2:4]))
+        cx.check(g.guarded(at, lambda lits: any(lease_ok(l) for l in lits))[0], "reject:lease", "validate() succeeds only if lease-based reads come with check_quorum")
     # the getters: 0 means "derive from election_tick"
     for name, mult in (("min_election_tick", 1), ("max_election_tick", 2)):
         f = cx.fn("Config::" + name)
